@@ -528,6 +528,10 @@ impl<I: Hash + Eq, A: Hash + Eq> Game<I, A> {
                 match actions.len() {
                     0 => Err(GameError::EmptyPlayer),
                     1 => {
+                        // the same infoset can't have several actions elsewhere
+                        if player_num.ind(player_infosets).contains(&infoset) {
+                            return Err(GameError::ActionsNotEqual);
+                        }
                         let action = actions.pop().unwrap();
                         match player_num.ind_mut(single_infosets).entry(infoset) {
                             hash_map::Entry::Occupied(ent) => {
@@ -549,6 +553,10 @@ impl<I: Hash + Eq, A: Hash + Eq> Game<I, A> {
                         )
                     }
                     _ => {
+                        // the same infoset can't have a single action elsewhere
+                        if player_num.ind(single_infosets).contains_key(&infoset) {
+                            return Err(GameError::ActionsNotEqual);
+                        }
                         let info_ind = match player_num.ind_mut(player_infosets).entry(infoset) {
                             compact::Entry::Occupied(ent) => {
                                 let (ind, info) = ent.get();
